@@ -151,7 +151,10 @@ class Ctx:
 
     # ------------------------------------------------------------------ Go harness
     def gen_gomod(self):
-        rc, out = sh(["sh", os.path.join(HARNESS, "gen_gomod.sh")], env=GOENV)
+        self.moddir = os.path.join(self.tmpdir, "gomod")
+        rc, out = sh(["sh", os.path.join(HARNESS, "gen_gomod.sh"), self.moddir], env=GOENV)
+        if not os.path.exists(os.path.join(HARNESS, "go.mod")):
+            sh(["sh", os.path.join(HARNESS, "gen_gomod.sh")], env=GOENV)
         if rc != 0:
             self.violate("precondition:gomod", "cannot regenerate harness go.mod: " + out[-2000:],
                          {"kind": "precondition", "output": out[-4000:]}, found_input=False)
@@ -166,8 +169,8 @@ class Ctx:
         if os.path.exists(out_bin):
             os.remove(out_bin)
         t = time.time()
-        rc, out = sh(["go", "build", "-tags", tags, "-o", out_bin, "./cmd/" + name], cwd=HARNESS, env=GOENV,
-                     timeout=1800)
+        rc, out = sh(["go", "build", "-modfile=" + os.path.join(self.moddir, "go.mod"), "-tags", tags, "-o", out_bin,
+                      "./cmd/" + name], cwd=HARNESS, env=GOENV, timeout=1800)
         self.note("go build -tags %s cmd/%s rc=%d (%.1fs)" % (tags, name, rc, time.time() - t))
         if rc != 0:
             self.violate("precondition:build:" + name,
@@ -233,18 +236,26 @@ class Ctx:
             self.cov["lean_errors"] = errs[:20]
             self.note("proof obligations NOT discharged: %s" % ", ".join(failing))
             return False
-        # textual scan over every project source file (comments stripped)
+        # textual scan over the property module and every project module it imports (comments stripped)
         bad = []
-        for dp, _, fs in os.walk(os.path.join(LEAN, "Poly")):
-            for f in fs:
-                if f.endswith(".lean"):
-                    s = strip_lean_comments(open(os.path.join(dp, f)).read())
-                    for m in FORBIDDEN_TOKENS.finditer(s):
-                        tok = m.group(0).strip()
-                        rel = os.path.relpath(os.path.join(dp, f), LEAN)
-                        if tok == "native_decide" and rel in expect_native:
-                            continue
-                        bad.append("%s: %s" % (rel, tok))
+        todo, seen = [module], set()
+        while todo:
+            m = todo.pop()
+            if m in seen:
+                continue
+            seen.add(m)
+            fp = os.path.join(LEAN, *m.split(".")) + ".lean"
+            if not os.path.exists(fp):
+                continue
+            s = strip_lean_comments(open(fp).read())
+            todo += re.findall(r"^import\s+(Poly\.[A-Za-z0-9_.]+)", s, re.M)
+            for mm in FORBIDDEN_TOKENS.finditer(s):
+                tok = mm.group(0).strip()
+                rel = os.path.relpath(fp, LEAN)
+                if tok == "native_decide" and rel in expect_native:
+                    continue
+                bad.append("%s: %s" % (rel, tok))
+        self.cov["modules_scanned"] = sorted(seen)
         if bad:
             self.lean_ok = False
             self.failed_theorems = ["<forbidden token> " + b for b in bad[:10]]
